@@ -20,5 +20,18 @@ out=["# Detection record for independently seeded changes","",
 "| change | written against | check | verdict | what it is (first line of notes.md) |","|---|---|---|---|---|"]
 for r in rows:
     out.append("| %s | %s | %s | %s | %s |"%r)
+# summary: per change, is it reported by the check of the property it was written against / by any check
+by={}
+for name,prop,cid,v,first in rows:
+    d=by.setdefault(name,{'prop':prop,'primary':False,'any':False})
+    if v.startswith('exit=1'):
+        d['any']=True
+        if cid==prop: d['primary']=True
+n=len(by); p_=sum(1 for d in by.values() if d['primary']); a_=sum(1 for d in by.values() if d['any'])
+summary=["","## Summary","",f"{n} kept changes; {p_} reported by the check of the property they were written against; {a_} reported by at least one check.",""]
+miss=[k for k,d in sorted(by.items()) if not d['primary']]
+if miss:
+    summary.append("Not reported by the check of their own property (see DESIGN.md 10.5): "+", ".join(miss))
+out=out[:6]+summary+[""]+out[6:]
 open('/verif/seeded/RESULTS.md','w').write("\n".join(out)+"\n")
 print(len(rows),"rows")
